@@ -303,6 +303,97 @@ fn exec(sc: &Scenario) -> Report {
     finish_report(res, out)
 }
 
+/// ticked: the ordinary requests come from a steady ticker (and from set_message calls of the user
+/// thread); the user thread sleeps, or holds the bar inside suspend() for many tick intervals
+/// while the ticker thread waits for the bar, or the terminal is slow. Law (1) on the paint times.
+fn exec_ticked(sc: &Scenario) -> Report {
+    let sc2 = sc.clone();
+    let (res, out) = World::run(Config::sequential(sc.seed), move || {
+        let sc = sc2;
+        let mut r = Report::default();
+        let term = SimTerm::new(60, 10);
+        let hz = sc.c("hz").clamp(1, 255);
+        if sc.c("slow_flush_ns") > 0 {
+            term.set_fault(crate::simterm::FaultPlan {
+                slow_flush_ns: sc.c("slow_flush_ns"),
+                ..Default::default()
+            });
+        }
+        let pb = ProgressBar::with_draw_target(Some(1_000_000), ProgressDrawTarget::term_like_with_hz(Box::new(term.clone()), hz as u8));
+        pb.set_style(ProgressStyle::with_template("{spinner} {pos}|{msg}").unwrap());
+        let main_tid = sched::tid().unwrap_or(0);
+        let d_ns = sc.c("tick_ns").max(1_000);
+        if let Err(p) = call(|| pb.enable_steady_tick(std::time::Duration::from_nanos(d_ns))) {
+            r.violate("C05.no_panic", format!("enable_steady_tick panicked: {p}"));
+            return r;
+        }
+        let ops = sc.threads.first().cloned().unwrap_or_default();
+        let mut forced_ops: std::collections::BTreeSet<u64> = Default::default();
+        for (i, op) in ops.iter().enumerate() {
+            let at = format!("op#{i} {}", op.short());
+            term.set_op(i as u64 + 1);
+            let res = match op.k.as_str() {
+                "sleep" => {
+                    sched::sleep(op.n0());
+                    Ok(())
+                }
+                "suspend_hold" => {
+                    forced_ops.insert(i as u64 + 1);
+                    call(|| pb.suspend(|| sched::sleep(op.n0())))
+                }
+                "println" => {
+                    forced_ops.insert(i as u64 + 1);
+                    call(|| pb.println("log"))
+                }
+                "set_message" => call(|| pb.set_message(format!("m{i}"))),
+                "inc" => call(|| pb.inc(1)),
+                _ => Ok(()),
+            };
+            if let Err(p) = res {
+                r.violate("C05.no_panic", format!("{at} panicked: {p}"));
+                break;
+            }
+        }
+        let _ = call(|| pb.disable_steady_tick());
+        // frames caused by ordinary requests: everything the ticker thread painted, and what the
+        // user thread painted outside its forced calls
+        let mut ordinary: Vec<u64> = term
+            .lock()
+            .flush_log
+            .iter()
+            .filter(|(_, _, op, tid)| *tid != main_tid || !forced_ops.contains(op))
+            .map(|(_, clock, _, _)| *clock)
+            .collect();
+        ordinary.sort_unstable();
+        if r.violation.is_none() {
+            'outer: for i in 0..ordinary.len() {
+                for j in (i + 21)..ordinary.len() {
+                    let frames = (j - i + 1) as u128;
+                    let dt = (ordinary[j] - ordinary[i]) as u128;
+                    if (frames - 21) * 1_000_000_000 > hz as u128 * dt {
+                        r.violate(
+                            "C05.rate_law",
+                            format!(
+                                "steady ticker every {d_ns} ns: {frames} frames caused by ordinary requests reached the terminal in the {dt} ns window [{}, {}] at {hz} Hz; the law allows 20 + R*T + 1 = {}",
+                                ordinary[i],
+                                ordinary[j],
+                                21 + hz as u128 * dt / 1_000_000_000
+                            ),
+                        );
+                        break 'outer;
+                    }
+                }
+            }
+        }
+        r.probe_n("ticked_ordinary_frames", ordinary.len() as u64);
+        r.probe("ticked_runs");
+        r.nontrivial = ordinary.len() >= 3;
+        drop(pb);
+        r
+    });
+    finish_report(res, out)
+}
+
 /// MultiProgress runs: sibling bars above the bar under test are finished and dropped (in any
 /// order) and the region is cleared somewhere in the history
 fn add_sibling_ops(sc: &mut Scenario, ops: &mut Vec<Op>, rng: &mut Rng) {
@@ -347,10 +438,10 @@ impl Check for C05 {
         "C05"
     }
     fn rule_text(&self) -> String {
-        "50..400 requests (tick, set_message, set_prefix, set_length, inc_length, dec_length, unset_length, update, reset (also right after finish_and_clear) = direct ordinary; inc/dec/set_position = through the position bucket; one bar in four starts without a length; println/force_draw/mp.println/mp.clear and finishing + dropping sibling bars above the bar under test = forced, excluded from the law) on a target with refresh rate R uniform in 1..=255 or without limiter, standalone or as a MultiProgress target (one run in thirty on a real console::Term over a kernel pty); arrival gaps from a mixture: 0, 1 ns, I±{0,1 ns,1 µs}, k*I±..., 1 ms±1 ns, sub-interval uniform, seconds, hours (I = 1e9/R ns). Laws checked on the recorded paint timestamps: (1) every window of ordinary frames satisfies count <= 20 + R*T + 1 (integer arithmetic), (2) a direct ordinary request arriving >= ceil(1e9/R) ns after the last painted frame is painted, (3) after every position update the last painted frame is younger than ceil(1e9/R) ns + 1 ms, (4) on an unlimited target admitted position updates obey burst 10 / 1 per ms and a position update >= 1 ms after the last admitted one is admitted, (5) every painted frame shows the latest position, length, message and prefix. Non-trivial: >= 3 frames caused by ordinary requests. Distinct = distinct scenario hash.".into()
+        "50..400 requests (tick, set_message, set_prefix, set_length, inc_length, dec_length, unset_length, update, reset (also right after finish_and_clear) = direct ordinary; inc/dec/set_position = through the position bucket; one bar in four starts without a length; println/force_draw/mp.println/mp.clear and finishing + dropping sibling bars above the bar under test = forced, excluded from the law) on a target with refresh rate R uniform in 1..=255 or without limiter, standalone or as a MultiProgress target (one run in thirty on a real console::Term over a kernel pty); arrival gaps from a mixture: 0, 1 ns, I±{0,1 ns,1 µs}, k*I±..., 1 ms±1 ns, sub-interval uniform, seconds, hours (I = 1e9/R ns). Laws checked on the recorded paint timestamps: (1) every window of ordinary frames satisfies count <= 20 + R*T + 1 (integer arithmetic), (2) a direct ordinary request arriving >= ceil(1e9/R) ns after the last painted frame is painted, (3) after every position update the last painted frame is younger than ceil(1e9/R) ns + 1 ms, (4) on an unlimited target admitted position updates obey burst 10 / 1 per ms and a position update >= 1 ms after the last admitted one is admitted, (5) every painted frame shows the latest position, length, message and prefix. Mode ticked (one run in ten): the ordinary requests come from a steady ticker (1 ms .. 1 s) and from set_message calls while the user thread sleeps for 1..40 tick intervals, holds the bar inside suspend() for 3..90 intervals (the ticker thread waits for the bar meanwhile), prints, and the terminal may be slow (every flush takes 0.2 or 30 ms); law (1) on the times at which the frames reached the terminal. Non-trivial: >= 3 frames caused by ordinary requests. Distinct = distinct scenario hash.".into()
     }
     fn assumptions(&self) -> Vec<String> {
-        vec!["time is integral nanoseconds on the virtual clock; no steady ticker is installed".into()]
+        vec!["time is integral nanoseconds on the virtual clock; a steady ticker is installed only in mode ticked".into()]
     }
     fn budget(&self, tier: Tier) -> Budget {
         match tier {
@@ -374,6 +465,25 @@ impl Check for C05 {
         vec![s, s2]
     }
     fn gen(&self, rng: &mut Rng, tier: Tier, _index: u64) -> Scenario {
+        if rng.chance(1, 10) {
+            let mut sc = Scenario::new("C05", "ticked", rng.next_u64());
+            sc.set("hz", *rng.pick(&[1, 2, 5, 20, 20, 60, 255]));
+            let d = *rng.pick(&[1_000_000u64, 5_000_000, 20_000_000, 50_000_000, 100_000_000, 1_000_000_000]);
+            sc.set("tick_ns", d);
+            sc.set("slow_flush_ns", *rng.pick(&[0, 0, 0, 200_000, 30_000_000]));
+            let mut ops = vec![];
+            for _ in 0..rng.range(3, 20) {
+                ops.push(match rng.weighted(&[5, 4, 2, 1, 2]) {
+                    0 => Op::new("sleep").n(rng.range(1, 40) * d + rng.below(d)),
+                    1 => Op::new("suspend_hold").n(rng.range(3, 90) * d),
+                    2 => Op::new("set_message"),
+                    3 => Op::new("println"),
+                    _ => Op::new("inc"),
+                });
+            }
+            sc.threads = vec![ops];
+            return sc;
+        }
         let mut sc = Scenario::new("C05", "seq", rng.next_u64());
         let hz = if rng.chance(1, 6) {
             0
@@ -495,6 +605,9 @@ impl Check for C05 {
         sc
     }
     fn exec(&self, sc: &Scenario) -> Report {
+        if sc.mode == "ticked" {
+            return exec_ticked(sc);
+        }
         exec(sc)
     }
     fn shrink_cfg(&self) -> Vec<(&'static str, u64)> {
